@@ -84,6 +84,26 @@ type c17LimCase struct {
 	Path    string     `json:"path"` // receipt (NewEventFromUntrustedJSON) | build (EventBuilder.Build)
 	Fields  []c17Field `json:"fields,omitempty"`
 	Size    int        `json:"size,omitempty"` // if > 0: the whole event JSON is padded to exactly this many bytes
+	// Wire (receipt path): how the sender spells the event. "" = canonical JSON. The limits are defined
+	// on the canonical form the event is stored and hashed in, so every spelling of one event must
+	// get the same outcome: "padded" (insignificant white space), "escaped" (\uXXXX for ASCII text),
+	// "unsigned" (a large unsigned section, which is stripped on receipt), "age_ts" (another stripped key).
+	Wire string `json:"wire,omitempty"`
+}
+
+// c17Wire re-spells a canonical event without changing its value (beyond the keys stripped on receipt).
+func c17Wire(raw []byte, how string) []byte {
+	switch how {
+	case "padded":
+		return []byte("{" + strings.Repeat(" ", 300) + string(raw[1:len(raw)-1]) + "\n\t" + strings.Repeat(" ", 40) + "}")
+	case "escaped":
+		return []byte(strings.Replace(string(raw), `"body":"pppppppppppppppppppp`, `"body":"`+strings.Repeat(`\u0070`, 20), 1))
+	case "unsigned":
+		return []byte(`{"unsigned":{"age":1,"filler":"` + strings.Repeat("u", 400) + `"},` + string(raw[1:]))
+	case "age_ts":
+		return []byte(`{"age_ts":1700000000000,"outlier":false,"destinations":["` + strings.Repeat("d", 100) + `"],` + string(raw[1:]))
+	}
+	return raw
 }
 
 var c17Filler = map[int]string{1: "a", 2: "é", 3: "€", 4: "😀"}
@@ -306,6 +326,18 @@ func c17CheckLimits(ctx *vfCtx, c c17LimCase) {
 			ctx.Unjudged("harness could not hit the requested event size")
 			return
 		}
+		if c.Wire != "" {
+			wire := c17Wire(raw, c.Wire)
+			if len(wire) == len(raw) {
+				ctx.Class("harness/wire-spelling-not-applicable")
+			} else {
+				ctx.Class("wire/" + c.Wire)
+				if len(wire) > 65536 && len(raw) <= 65536 {
+					ctx.Class("wire/over-65536-canonical-within")
+				}
+				raw = wire
+			}
+		}
 		if vfCatch(ctx, "C17/limits", func() { ev, err = impl.NewEventFromUntrustedJSON(raw) }) {
 			return
 		}
@@ -476,6 +508,14 @@ func c17EnumLimits(size, shard, nshards int, emit func(c17LimCase)) {
 			for n := 65536 - size; n <= 65536+size; n++ {
 				out(c17LimCase{Version: ver, Path: path, Size: n})
 			}
+			// whole-event size in other wire spellings (the receipt path only)
+			if path == "receipt" {
+				for _, wire := range []string{"padded", "escaped", "unsigned", "age_ts"} {
+					for _, n := range []int{65536 - 200, 65536 - 1, 65536, 65537} {
+						out(c17LimCase{Version: ver, Path: path, Size: n, Wire: wire})
+					}
+				}
+			}
 			// the complete pair product: each field over the byte limit only x each field over the
 			// code-point limit (ASCII and multi-byte filler) and x the whole event over its size limit
 			for _, a := range names {
@@ -505,6 +545,9 @@ func c17GenLimits(t *rapid.T) c17LimCase {
 	}
 	if rapid.IntRange(0, 3).Draw(t, "sized") == 0 {
 		c.Size = rapid.IntRange(65530, 65542).Draw(t, "size")
+	}
+	if c.Path == "receipt" && rapid.IntRange(0, 3).Draw(t, "respelt") == 0 {
+		c.Wire = rapid.SampledFrom([]string{"padded", "escaped", "unsigned", "age_ts"}).Draw(t, "wire")
 	}
 	return c
 }
